@@ -181,7 +181,10 @@ def local_degree(points: t.List[t.Tuple[int, float]], noise: float) -> t.Optiona
     pts = [(n, c) for n, c in points if c > noise]
     if len(pts) < 2:
         return None
-    (n0, c0), (n1, c1) = pts[0], pts[-1]
+    # "local": over the last few measurable sizes. A polynomial has the same degree anywhere; an exponential's
+    # apparent degree grows with n, so measuring near the largest affordable size separates them best.
+    tail = pts[-4:]
+    (n0, c0), (n1, c1) = tail[0], tail[-1]
     if n1 <= n0 or c0 <= 0:
         return None
     return math.log(c1 / c0) / math.log(n1 / n0)
